@@ -178,8 +178,9 @@ StepMem(M, c, f, ins, info) ==
                               [f EXCEPT !.stack = DropLast(f.stack, 3) \o <<V(info.t, ExtendU(old, info.k))>>,
                                         !.pc = f.pc + 1])
           [] info.c = "futex" ->
-              \* sequential outcomes only: notify with no waiter returns 0; wait with a
-              \* different cell value returns 1 ("not-equal"); an equal value would block.
+              \* sequential outcomes only (one agent): notify with no waiter returns 0; wait with a
+              \* different cell value returns 1 ("not-equal"); with an equal value it blocks, and since nobody
+              \* can notify it returns 2 ("timed-out") when the timeout is finite (non-negative) and never otherwise.
               IF info.o = "notify" THEN
                   LET ea == EffAddr(Peek(f, 1).b, off)
                   IN  IF ~InBounds(mem, ea, 4) THEN Stop(c, "undefined")
@@ -189,7 +190,10 @@ StepMem(M, c, f, ins, info) ==
                   LET ea   == EffAddr(Peek(f, 2).b, off)
                       cell == RdBytes(mem, ea, info.k)
                   IN  IF ~InBounds(mem, ea, info.k) THEN Stop(c, "undefined")
-                      ELSE IF cell = Peek(f, 1).b THEN Stop(c, "wouldblock")
+                      ELSE IF cell = Peek(f, 1).b THEN
+                          (IF SignBit(Peek(f, 0).b) = 1 THEN Stop(c, "wouldblock")
+                           ELSE SetTop(c, [f EXCEPT !.stack = DropLast(f.stack, 3) \o <<V("i32", OfNat(2, KOf("i32")))>>,
+                                                    !.pc = f.pc + 1]))
                       ELSE SetTop(c, [f EXCEPT !.stack = DropLast(f.stack, 3) \o <<V("i32", OfNat(1, KOf("i32")))>>,
                                                !.pc = f.pc + 1])
 
